@@ -913,3 +913,74 @@ pub fn eval_pair(base: &ProgCase, variant: &ProgCase, what: &str, st: &mut RunSt
     st.count(&format!("pairs: {}", what), 1);
     out
 }
+
+// ---------------------------------------------------------------- fragmented muxer under two clock regimes
+
+/// "... or at a different wall-clock time gives identical results": the same fragmented history is executed
+/// with both simulated clocks (wall clock and monotonic clock) frozen, and again - on another thread - with
+/// both jumping between operations (milliseconds to days; the wall clock also backwards). Every return value
+/// and every emitted byte must agree, and the library must not read a clock at all.
+pub fn eval_frag_clock(case: &FragCase, st: &mut RunStats) -> Vec<Violation> {
+    let mut out = Vec::new();
+    let _guard = CLOCK_LOCK.lock().unwrap_or_else(|e| e.into_inner());
+    hooks::SIM_CLOCK_SECS.store(1_700_000_000, Ordering::SeqCst);
+    hooks::SIM_MONO_NANOS.store(5_000_000_000, Ordering::SeqCst);
+    hooks::SIM_CLOCK_ON.store(true, Ordering::SeqCst);
+    let reads0 = hooks::CLOCK_READS.load(Ordering::SeqCst);
+    let frozen = exec::run_frag(case);
+    let mut h = Hasher64::new();
+    for (i, op) in case.ops.iter().enumerate() {
+        h.str(op.kind());
+        h.u64(i as u64);
+    }
+    let mut jr = Rng::new(h.finish() ^ 0x636c6f636b);
+    let c2 = case.clone();
+    let jumps: Vec<(i64, u64)> = (0..case.ops.len())
+        .map(|_| {
+            let wall = *jr.pick(&[0i64, 1, 3, 60, 3600, 86_400, -1, -3600, 1_000_000_000]);
+            let mono = *jr.pick(&[0u64, 1_000_000, 50_000_000, 2_100_000_000, 10_000_000_000, 86_400_000_000_000]);
+            (wall, mono)
+        })
+        .collect();
+    let moving = std::thread::spawn(move || {
+        exec::run_frag_with(&c2, &mut |i| {
+            let (w, m) = jumps[i];
+            hooks::SIM_CLOCK_SECS.fetch_add(w, Ordering::SeqCst);
+            hooks::SIM_MONO_NANOS.fetch_add(m, Ordering::SeqCst);
+        })
+    })
+    .join();
+    let reads = hooks::CLOCK_READS.load(Ordering::SeqCst) - reads0;
+    hooks::SIM_CLOCK_ON.store(false, Ordering::SeqCst);
+    st.trace_hash = crate::frag::trace_hash_frag(&frozen);
+    let moving = match moving {
+        Ok(m) => m,
+        Err(_) => {
+            out.push(v("C17", "panic", "fragment-clock", "the fragmented history panicked outside a guarded call when run on another thread".to_string()));
+            return out;
+        }
+    };
+    if frozen.ops.iter().any(|o| matches!(o, exec::FragRes::Panic { .. })) {
+        return out; // C12's business
+    }
+    if reads > 0 {
+        out.push(v("C17", "clock-read", "fragmented", format!("the fragmented muxer read a clock {} times during a history of {} operations; nothing in its contract depends on time", reads, case.ops.len())));
+        return out;
+    }
+    for (i, (a, b)) in frozen.ops.iter().zip(moving.ops.iter()).enumerate() {
+        if a != b {
+            out.push(v("C17", "time-dependent-result", case.ops[i].kind(), format!("fragmented op {} ({}) returns {} with the clocks frozen and {} when they move between calls (other thread)", i, case.ops[i].kind(), brief(a), brief(b))));
+            return out;
+        }
+    }
+    st.nontrivial = Some(crate::frag::abstract_frag(case, &frozen, st));
+    out
+}
+
+fn brief(r: &exec::FragRes) -> String {
+    let s = format!("{:?}", r);
+    s.chars().take(120).collect()
+}
+
+/// the simulated clocks are process-wide: one clock scenario at a time per process (workers are processes)
+static CLOCK_LOCK: std::sync::Mutex<()> = std::sync::Mutex::new(());
